@@ -7,6 +7,8 @@ index the generator would hand out, the scope (main / ordinary definition) and t
   nvar  user variables named like generated variables x<k> live across generated binders
   nlab  user definitions named like lifted labels share_<f>_<n> / lift_<f>_<n>, declared before and after <f>
   self  objects passed to their own methods (receiver among the arguments of an invoke)
+  targs parameterised types whose arguments are themselves parameterised, in every argument position (label sanitising)
+  spill 16..20 simultaneously live integers, every operator and comparison between late (spilled) and early variables
 """
 import os
 D = os.path.join(os.path.dirname(os.path.abspath(__file__)), "..", "fun")
@@ -71,20 +73,27 @@ for base in ["share", "lift"]:
         for n in range(3):
             for order in ["before", "after"]:
                 user = f"def {base}_{fn}_{n}(a: i64): i64 {{ a + 1 }}\n"
-                f_def = """def f(a: i64): i64 {
-  let u: i64 = (if a == 0 { 10 } else { 20 }) * 7;
-  let v: i64 = (if u < a { 1 } else { 2 }) + u;
-  (if v == 72 { 3 } else { 4 }) * v
+                f_def = """data Opt { None, Some(v: i64) }
+def f(a: i64): i64 {
+  let u: i64 = if a == 0 { 10 } else { 20 };
+  let v: i64 = if u < a { u + 1 } else { u + 2 };
+  let o: Opt = if v == 22 { None } else { Some(v) };
+  let w: i64 = o.case { None => u, Some(y) => y + a };
+  let o2: Opt = mk(w);
+  let z: i64 = o2.case { None => w, Some(y2) => y2 + v };
+  (((u * 7) + v) + w) + z
 }
+def mk(a: i64): Opt { if a == 0 { None } else { Some(a + 1) } }
 """
                 if fn == "f":
                     main = f"def main(n: i64): i64 {{ println_i64(f(n)); println_i64({base}_{fn}_{n}(n)); 0 }}\n"
                     text = (user + f_def + main) if order == "before" else (f_def + main + user)
                 else:
                     main = f"""def main(n: i64): i64 {{
-  let u: i64 = (if n == 0 {{ 10 }} else {{ 20 }}) * 7;
-  let v: i64 = (if u < n {{ 1 }} else {{ 2 }}) + u;
-  println_i64((if v == 72 {{ 3 }} else {{ 4 }}) * v);
+  let u: i64 = if n == 0 {{ 10 }} else {{ 20 }};
+  let v: i64 = if u < n {{ u + 1 }} else {{ u + 2 }};
+  let w: i64 = if v == 22 {{ u }} else {{ v + n }};
+  println_i64(((u * 7) + v) + w);
   println_i64({base}_{fn}_{n}(n));
   0
 }}
@@ -110,3 +119,78 @@ def take(s: Str, n: i64): i64 { if n == 0 { s.hd } else { take(s.nxt(s), n - 1) 
 def mk(seed: i64): Str { new { hd => seed, nxt(s) => mk(seed + (s.hd)) } }
 def main(n: i64): i64 { println_i64(take(mk(n), 5)); 0 }
 """)
+
+# ---- nested type arguments in every position, data (case) and codata (new / destructor)
+POLY = """data List[A] { Nil, Cons(x: A, xs: List[A]) }
+data Pair[A, B] { MkP(fst: A, snd: B) }
+data Trip[A, B, C] { MkT(a: A, b: B, c: C) }
+codata Fun[A, B] { apply(x: A) : B }
+codata LPair[A, B] { lfst : A, lsnd : B }
+"""
+w("targs_data", POLY + """
+def len(l: List[i64]): i64 { l.case[i64] { Nil => 0, Cons(x, xs) => 1 + len(xs) } }
+def p1(p: Pair[List[i64], i64]): i64 { p.case[List[i64], i64] { MkP(a, b) => len(a) + b } }
+def p2(p: Pair[i64, List[i64]]): i64 { p.case[i64, List[i64]] { MkP(a, b) => a + len(b) } }
+def p3(p: Pair[Pair[i64, i64], Pair[List[i64], i64]]): i64 {
+  p.case[Pair[i64, i64], Pair[List[i64], i64]] { MkP(a, b) => (a.case[i64, i64] { MkP(u, v) => u + v }) + p1(b) }
+}
+def t1(t: Trip[List[i64], Pair[i64, i64], i64]): i64 {
+  t.case[List[i64], Pair[i64, i64], i64] { MkT(a, b, c) => (len(a) + (b.case[i64, i64] { MkP(u, v) => u * v })) + c }
+}
+def t2(t: Trip[i64, List[List[i64]], Pair[i64, List[i64]]]): i64 {
+  t.case[i64, List[List[i64]], Pair[i64, List[i64]]] { MkT(a, b, c) => a + p2(c) }
+}
+def main(n: i64): i64 {
+  let l: List[i64] = Cons(n, Cons(2, Nil));
+  println_i64(p1(MkP(l, 10)));
+  println_i64(p2(MkP(20, l)));
+  println_i64(p3(MkP(MkP(1, 2), MkP(l, 3))));
+  println_i64(t1(MkT(l, MkP(3, 4), 5)));
+  println_i64(t2(MkT(7, Nil, MkP(8, l))));
+  0
+}
+""")
+w("targs_codata", POLY + """
+def len(l: List[i64]): i64 { l.case[i64] { Nil => 0, Cons(x, xs) => 1 + len(xs) } }
+def f1(n: i64): Fun[List[i64], i64] { new { apply(l) => len(l) + n } }
+def f2(n: i64): Fun[Pair[List[i64], i64], Fun[i64, i64]] {
+  new { apply(p) => new { apply(y) => (p.case[List[i64], i64] { MkP(a, b) => len(a) + b }) + (y + n) } }
+}
+def lp(n: i64): LPair[Fun[i64, i64], List[i64]] { new { lfst => new { apply(x) => x + n }, lsnd => Cons(n, Nil) } }
+def lp2(n: i64): LPair[List[i64], Fun[i64, i64]] { new { lfst => Cons(n, Cons(n, Nil)), lsnd => new { apply(x) => x * n } } }
+def main(n: i64): i64 {
+  let l: List[i64] = Cons(n, Cons(2, Nil));
+  println_i64(f1(n).apply[List[i64], i64](l));
+  println_i64(f2(n).apply[Pair[List[i64], i64], Fun[i64, i64]](MkP(l, 5)).apply[i64, i64](7));
+  println_i64(lp(n).lfst[Fun[i64, i64], List[i64]].apply[i64, i64](1));
+  println_i64(len(lp(n).lsnd[Fun[i64, i64], List[i64]]));
+  println_i64(len(lp2(n).lfst[List[i64], Fun[i64, i64]]));
+  println_i64(lp2(n).lsnd[List[i64], Fun[i64, i64]].apply[i64, i64](3));
+  0
+}
+""")
+
+# ---- many live integers: operators and comparisons between spilled and register-held variables
+OPS = ["+", "-", "*", "/", "%"]
+CMPS = ["==", "!=", "<", "<=", ">", ">="]
+for nlive in (16, 20):
+    lets = "".join(f"  let v{i}: i64 = n + {i * 3 + 1};\n" for i in range(nlive))
+    body = ""
+    k = 0
+    late = [nlive - 1, nlive - 2, nlive - 3]
+    early = [0, 1, 7]
+    pairs = [(a, b) for a in late for b in late if a != b][:4] + [(a, b) for a in late for b in early][:4] + [(b, a) for a in late for b in early][:4]
+    for (a, b) in pairs:
+        op = OPS[k % 5]; c = CMPS[k % 6]; c2 = CMPS[(k + 3) % 6]
+        body += f"  println_i64(v{a} {op} v{b});\n"
+        body += f"  println_i64(if v{a} {c} v{b} {{ 1 }} else {{ 2 }});\n"
+        body += f"  println_i64(if v{b} {c2} v{b} {{ 3 }} else {{ 4 }});\n"
+        k += 1
+    for c in CMPS:
+        body += f"  println_i64(if v{nlive-1} {c} v{nlive-2} {{ 5 }} else {{ 6 }});\n"
+        body += f"  println_i64(if v{nlive-2} {c} v{nlive-1} {{ 7 }} else {{ 8 }});\n"
+        body += f"  println_i64(if v{nlive-1} {c} v{nlive-1} {{ 9 }} else {{ 10 }});\n"
+    total = " + ".join(f"v{i}" for i in range(nlive))
+    acc = "v0"
+    for i in range(1, nlive): acc = f"({acc} + v{i})"
+    w(f"spill_ops_{nlive}", f"def main(n: i64): i64 {{\n{lets}{body}  println_i64({acc});\n  0\n}}\n")
